@@ -14,6 +14,7 @@
 (*   frame  v x            one output frame (x = 1: not exact / channels differ)*)
 (*   end    st fin         the process call returned; handle state, finished()*)
 (*   seek_to t | seek_by d | set_loop lp ls le | set_rate rq   handle calls *)
+(*                         (frames; they take effect at the next `begin`)   *)
 (*   panic | hang          a call panicked / did not return                 *)
 (*                                                                          *)
 (* Where the statement leaves slack the monitor keeps a SET of hypotheses   *)
@@ -151,7 +152,7 @@ PInit(c) ==
              step |-> IF stepOK THEN num \div c.dev ELSE Q, f |-> 0,
              hyps |-> {}, open |-> FALSE, stopped |-> FALSE, dr |-> 0,
              cmd |-> "", age |-> 0, nearEnd |-> FALSE, prate |-> 0, arate |-> 0,
-             rneg |-> c.rq < 0, srn |-> c.sr, srd |-> c.dev, pe |-> NoCmd]
+             rneg |-> c.rq < 0, srn |-> c.sr, srd |-> c.dev, pe |-> NoCmd, sat |-> FALSE]
       defined == /\ sliceOK /\ stepOK /\ LoopOK(n, lp)
                  /\ c.start >= 0
                  /\ (c.start < n \/ (c.start = 0 /\ n = 0 /\ ~c.rev))
@@ -162,15 +163,20 @@ PInit(c) ==
 \* ------------------------------------------------------------ clauses
 FrameReason(m) ==
   IF m.cmd = "seek" /\ m.age <= 8
-  THEN IF m.nearEnd THEN "seek_in_final_frames" ELSE "seek_lands_within_one_frame"
+  THEN IF m.sat THEN "seek_by_saturates_at_zero"
+       ELSE IF m.nearEnd THEN "seek_in_final_frames" ELSE "seek_lands_within_one_frame"
   ELSE IF m.cmd = "loop" /\ m.age <= 8 THEN "loop_change_within_window"
   ELSE IF m.step = Q /\ m.f = 0 THEN "bit_exact_source_frames"
   ELSE "hermite_interpolation"
 
 \* a seek issued while fewer than four frames remain is reported under its own name
+\* (finding D17: before its fix such a seek was dropped because the transport had already stopped)
+\* (finding D18: seek_by measures from the prefetch position, three frames ahead of the frame heard; when
+\* that position has already wrapped to the loop start a negative amount saturates at frame 0)
 Named(m, r) ==
-  IF m.cmd = "seek" /\ m.nearEnd /\ r \in {"stopped_only_after_last_frame", "position_names_heard_frame"}
-  THEN "seek_in_final_frames" ELSE r
+  IF m.cmd = "seek" /\ r \in {"stopped_only_after_last_frame", "position_names_heard_frame"}
+  THEN IF m.sat THEN "seek_by_saturates_at_zero" ELSE IF m.nearEnd THEN "seek_in_final_frames" ELSE r
+  ELSE r
 
 StateReason(m, st) ==
   IF st \notin {"Playing", "Stopped"} THEN "state_playing_or_stopped"
@@ -229,14 +235,16 @@ ApplyCmd(m0) ==
     [] e.a = "seek_to" ->
          IF m.stopped THEN m
          ELSE IF ~Audible(m) \/ e.t \notin Region(m) THEN [m EXCEPT !.open = TRUE]
-         ELSE [m EXCEPT !.hyps = SeekHyps(m, e.t), !.cmd = "seek", !.age = 0, !.dr = 0,
+         ELSE [m EXCEPT !.hyps = SeekHyps(m, e.t), !.cmd = "seek", !.age = 0, !.dr = 0, !.sat = FALSE,
                         !.nearEnd = \E h \in m.hyps : h.q = NONE /\ h.g = 0]
     [] e.a = "seek_by" ->
          IF m.stopped THEN m
-         ELSE IF ~Audible(m) \/ (\E h \in m.hyps : h.w[2] = ANY)
+         \* (a relative seek while a loop-region change is still taking effect has no fixed reference point)
+         ELSE IF ~Audible(m) \/ (\E h \in m.hyps : h.w[2] = ANY) \/ (m.cmd = "loop" /\ m.age <= 4)
                  \/ ~(SeekByTargets(m, e.d) \subseteq Region(m)) THEN [m EXCEPT !.open = TRUE]
          ELSE [m EXCEPT !.hyps = UNION {SeekHyps(m, t) : t \in SeekByTargets(m, e.d)},
                         !.cmd = "seek", !.age = 0, !.dr = 0,
+                        !.sat = \E h \in m.hyps : h.g = 0 /\ h.q >= 0 /\ h.q + e.d < 0 /\ h.w[2] + e.d >= 0,
                         !.nearEnd = \E h \in m.hyps : h.q = NONE /\ h.g = 0]
     [] e.a = "set_loop" ->
          IF m.stopped THEN m
